@@ -26,6 +26,7 @@ def handle (line : String) : String :=
     match Bytes.ofHex h with
     | some s => showLex (lex Gen.lexTables s)
     | none => "bad-hex"
+  | "filter" :: rest => Wire.runFilter rest
   | "run" :: rest =>
     match Wire.decodeReq rest with
     | some r => Wire.runReq r
